@@ -135,7 +135,7 @@ class Engine(EngineBase, ExprMixin, StmtMixin, CallMixin, PreludeMixin, FoldMixi
         sf = self.spec_frame(mod, c.qual, cname, entry_env, old=({}, entry_env))
         entry = St((), {}, {})
         for m in c.modifies:
-            if m == 'alloc':
+            if m in ('alloc', 'clock'):
                 continue
             if isinstance(m, tuple):
                 cf, predtext = m
@@ -173,6 +173,10 @@ class Engine(EngineBase, ExprMixin, StmtMixin, CallMixin, PreludeMixin, FoldMixi
             init = self.H.initial(key, arr.sort().range())
             if arr.eq(init):
                 continue
+            if key[0] == '$clock':
+                if 'clock' not in c.modifies:
+                    self.oblige(st, '%s#frame[clock]' % c.qual, False, {'text': "reads the clock: add 'clock' to modifies"})
+                continue
             self.oblige(st, '%s#frame[%s]' % (c.qual, key[0]), self.frame_formula(st, key, arr))
 
     def loop_frame(self, st, keys, mode, name=None):
@@ -180,7 +184,7 @@ class Engine(EngineBase, ExprMixin, StmtMixin, CallMixin, PreludeMixin, FoldMixi
         if getattr(self, 'frame_ctx', None) is None:
             return
         for key in sorted(keys):
-            if key == ALIVE:
+            if key == ALIVE or key[0] == '$clock':
                 continue
             arr = self.H.get(st.heap, key, None)
             f = self.frame_formula(st, key, arr)
